@@ -69,6 +69,30 @@ class Tz(datetime.tzinfo):
 POOL = ["p" * 23, "q" * 33, "long text number three, forty-one chars ....", "w" * 100, "z" * 256, "k" * 10, "m" * 5, "account-key-of-23-chars"]
 
 
+class Labelled(str):
+    """A str whose printed form is not its characters."""
+
+    def __str__(self):
+        return f"{str.__str__(self)} <label & more>"
+
+    def __format__(self, spec):
+        return self.__str__()
+
+
+import enum  # noqa: E402
+
+
+class Tokens(str, enum.Enum):
+    CHECKING = "CHECKING"
+    SAVINGS = "SAVINGS"
+    ENG = "ENG"
+    INFO = "INFO"
+    DEBIT = "DEBIT"
+    CREDIT = "CREDIT"
+    USD = "USD"
+    Y = "Y"
+
+
 def hostile(ctx):
     def fn(rng, desc, clsname, attr):
         from ofxtools import Types as T
@@ -85,7 +109,7 @@ def hostile(ctx):
             if r < 0.40:
                 return D(rng.randint(1, 10**6) * 10**rng.randint(1, 6)).normalize()
             if r < 0.50:
-                return rng.choice([D("-0"), D("0E+3"), D("-0E-5"), D("0E-30"), D("1E+2"), D("1E-7"), D("1E+28")])
+                return rng.choice([D("-0"), D("0E+3"), D("-0E-5"), D("0E-30"), D("1E+2"), D("1E-7"), D("1E+28"), D("1E+25"), D("-9.99E+400"), D("1E-400")])
             if r < 0.62:
                 return rng.choice([D("NaN"), D("sNaN"), D("Infinity"), D("-Infinity"), D("-NaN")])
             if r < 0.74:
@@ -118,6 +142,10 @@ def hostile(ctx):
                 return NotImplemented
         if isinstance(desc, T.OneOf):
             tok = rng.choice([t for t in desc.valid if isinstance(t, str)] or ["X"])
+            if rng.random() < 0.3:
+                # a token that IS the declared one, held in an application's own string type (a str-based Enum prints its member
+                # name, a decorated str its label): what goes out is the token's characters
+                return rng.choice([Labelled(tok), Tokens(tok) if tok in Tokens._value2member_map_ else Labelled(tok)])
             return rng.choice([tok.lower(), tok.title(), tok.swapcase(), tok + " ", " " + tok])
         if isinstance(desc, T.String):
             r = rng.random()
@@ -257,6 +285,16 @@ def one(ctx, name, cls, seedstr, forms):
         return
     ctx.count("instances_written")
     ctx.distinct((name, seedstr))
+    # the same instance written by a thread whose arithmetic context is not the default one (few digits, small exponent range, no
+    # traps; the "extended" context of the General Decimal Arithmetic specification): written as before, or refused
+    import decimal as _d
+    for hc in (_d.Context(prec=6, Emax=20, Emin=-20, traps=[]), _d.ExtendedContext):
+        with _d.localcontext(hc):
+            ctx.count("writes_under_foreign_arithmetic_context")
+            try:
+                inst.to_etree()  # monitored: every leaf text is put to the lexical predicate again
+            except Exception:
+                ctx.count("refused_at_write_under_foreign_context")
     mutate_members(ctx, inst, cls, rng)
     for form, ver, pretty, close in forms:
         try:
